@@ -179,7 +179,7 @@ func checkC09(c C09Case, rec *obs.Recorder) *obs.Violation {
 	if r := ref.VerifyChain(sser, pub); !r.OK {
 		return obs.Violf("token %s: sealed token does not verify per the reference chain walk: %s", desc, r.Reason)
 	}
-	S2, err := biscuit.Unmarshal(sser)
+	S2, err := bridge.UnmarshalBase(sser, spec.Base)
 	if err != nil {
 		return obs.Violf("token %s: sealed token does not unmarshal: %v", desc, err)
 	}
@@ -260,6 +260,10 @@ func drawC09(t *rapid.T) C09Case {
 	cfg.PPolicyMatch = 60
 	sc := gen.DrawScenario(t, cfg, gen.SmallProfile)
 	c := C09Case{Spec: TokSpec{RootSeed: rapid.Uint64Range(1, 1<<16).Draw(t, "root"), RngKey: rapid.Uint64Range(1, 1<<32).Draw(t, "rng"), Blocks: sc.Token.Blocks}}
+	if rapid.IntRange(0, 3).Draw(t, "custombase") == 3 {
+		// token composed over a custom base symbol table that holds strings the content uses
+		c.Spec.Base = rapid.SampledFrom([][]string{{"file1"}, {"zz", "a", "b"}, {"x1", "file2", "file1", "admin"}}).Draw(t, "base")
+	}
 	if rapid.IntRange(0, 2).Draw(t, "haskeyid") > 0 {
 		id := rapid.SampledFrom([]uint32{0, 0, 1, 7, 1<<32 - 2}).Draw(t, "keyid")
 		c.Spec.KeyID = &id
@@ -277,7 +281,7 @@ func drawC09(t *rapid.T) C09Case {
 		c.Donor.RootSeed = c.Spec.RootSeed
 	}
 	c.Extra = drawSimpleBlock(t, sc.Schema)
-	c.Mut = Mutation{Kind: rapid.SampledFrom(c09Kinds).Draw(t, "kind"), Bit: rapid.IntRange(0, 4095).Draw(t, "bit"), N: rapid.Uint64Range(1, 1<<20).Draw(t, "n")}
+	c.Mut = Mutation{Kind: c09Kinds[spreadInt(t, "kind", len(c09Kinds))], Bit: rapid.IntRange(0, 4095).Draw(t, "bit"), N: rapid.Uint64Range(1, 1<<20).Draw(t, "n")}
 	return c
 }
 
